@@ -348,7 +348,116 @@ func (sx *symxer) load(u *ssa.UnOp, d int) *Sx {
 		}
 		return nil
 	}
+	// several whole-cell stores in the same function: keep only those that reach this load
+	if path == "" && u.Parent() == al.Parent() {
+		if r := sx.loadCellAt(al, u, d); r != nil {
+			return r
+		}
+	}
 	return sx.loadCell(al, path, d)
+}
+
+// loadCellAt: reaching-stores analysis for a local cell whose whole-cell stores all sit in the
+// allocating function: the value a load sees is one of the stores that reach it (a store kills the
+// earlier ones). Returns nil when the cell has fewer than two stores or is also stored elsewhere.
+func (sx *symxer) loadCellAt(al *ssa.Alloc, at ssa.Instruction, d int) *Sx {
+	fn := al.Parent()
+	var stores []*ssa.Store
+	for _, ref := range *al.Referrers() {
+		switch t := ref.(type) {
+		case *ssa.Store:
+			if t.Addr == ssa.Value(al) {
+				stores = append(stores, t)
+			}
+		case *ssa.FieldAddr, *ssa.IndexAddr:
+			return nil // partial stores: not handled here
+		case *ssa.MakeClosure:
+			// closures that assign the cell defeat the local analysis
+			cf := t.Fn.(*ssa.Function)
+			bad := false
+			for i, b := range t.Bindings {
+				if b == ssa.Value(al) {
+					for _, r2 := range *cf.FreeVars[i].Referrers() {
+						if st, ok := r2.(*ssa.Store); ok && st.Addr == ssa.Value(cf.FreeVars[i]) {
+							bad = true
+						}
+					}
+				}
+			}
+			if bad {
+				return nil
+			}
+		}
+	}
+	if len(stores) < 2 {
+		return nil
+	}
+	isStore := map[ssa.Instruction]*ssa.Store{}
+	for _, st := range stores {
+		isStore[st] = st
+	}
+	// forward dataflow over blocks: set of stores reaching block entry
+	type set map[*ssa.Store]bool
+	in := map[*ssa.BasicBlock]set{}
+	out := map[*ssa.BasicBlock]set{}
+	for _, b := range fn.Blocks {
+		in[b], out[b] = set{}, set{}
+	}
+	transfer := func(b *ssa.BasicBlock, s set, stop ssa.Instruction) (set, bool) {
+		cur := set{}
+		for k := range s {
+			cur[k] = true
+		}
+		for _, ins := range b.Instrs {
+			if ins == stop {
+				return cur, true
+			}
+			if st, ok := isStore[ins]; ok {
+				cur = set{st: true}
+			}
+		}
+		return cur, false
+	}
+	for changed := true; changed; {
+		changed = false
+		for _, b := range fn.Blocks {
+			ns := set{}
+			for _, p := range b.Preds {
+				for k := range out[p] {
+					ns[k] = true
+				}
+			}
+			in[b] = ns
+			o, _ := transfer(b, ns, nil)
+			if len(o) != len(out[b]) {
+				changed = true
+			} else {
+				for k := range o {
+					if !out[b][k] {
+						changed = true
+					}
+				}
+			}
+			out[b] = o
+		}
+	}
+	reach, _ := transfer(at.Block(), in[at.Block()], at)
+	if len(reach) == 0 {
+		return nil
+	}
+	var vals []*Sx
+	var ord []*ssa.Store
+	for st := range reach {
+		ord = append(ord, st)
+	}
+	sort.Slice(ord, func(i, j int) bool { return ord[i].Pos() < ord[j].Pos() })
+	for _, st := range ord {
+		vals = append(vals, sx.of(st.Val, d-1))
+	}
+	if len(vals) == 1 {
+		return vals[0]
+	}
+	return &Sx{Op: "phi", Args: vals}
 }
 
 func (sx *symxer) binding(fv *ssa.FreeVar) ssa.Value {
